@@ -20,9 +20,17 @@ from vlib.hyp import (Failure, Outcome, Stats, search, derive_seed, canon,
                       case_hash)
 
 RULE = ('G-A: bundles of shipped Equation classes (each on its own '
-        'destination/source array pair, sources = [dest, other]) x kernel x '
+        'destination/source array pair, sources = [dest, other] or [other, '
+        'dest], a class and its #alt instance may share a bundle, neighbour '
+        'cache on in every other bundle) x kernel x '
         'dim x generated data sets (6-14 particles per array, ghost tail, '
-        'values from drawn tables); G-B: generated equation classes. One JIT '
+        'values from drawn tables); G-B: generated equation classes '
+        '(several instances of one class, equations without sources that '
+        'define loop, SPH_KERNEL in every hook, helpers calling helpers, '
+        'typed/strided/array-specific properties on both sides) evaluated '
+        'as Groups or as a plain list, with the neighbour cache on or off, '
+        'on new ParticleArray objects (update_particle_arrays) and twice in '
+        'a row. One JIT '
         'compile per bundle. A (class, data set) pair is non-trivial when '
         'the reference executed >= 1 pair interaction (or the class has no '
         'pair hooks) and changed >= 1 value; distinct by (class, kernel, '
@@ -35,10 +43,29 @@ ASSUMPTIONS = [
     'bitwise comparison for arithmetic-only classes with spline/Wendland '
     'kernels, else |a-b| <= 1e-9*max|ref| per property',
     'neighbour lists from LinkedListNNPS(sort_gids=True) on both sides',
-    'serial execution (OpenMP off)',
+    'shipped classes run serially (OpenMP off); generated programs also '
+    'with OpenMP (3 and 16 threads)',
+    'parallel_reduce_array is the serial no-op the manual describes '
+    '(dummy_reduce_array) on the Python side, as in the generated code',
+    'hooks that update an instance attribute are generated for serial, '
+    'arithmetic-only programs only (one equation object, order of calls '
+    'defined)',
 ]
 ESSENTIAL_LABELS = {'all': ['shipped', 'generated', 'bitwise', 'tolerance', 'strided',
-                            'constant', 'ghosts']}
+                            'constant', 'ghosts', 'openmp', 'prior_evaluator',
+                            # coverage audit (DESIGN 9.7): evaluator-level
+                            'nnps_cache_on', 'nnps_cache_off',
+                            'update_particle_arrays', 'evaluated_twice',
+                            'flat_equation_list', 'backend_explicit',
+                            'group_real_false', 'unused_array:first',
+                            # program-level
+                            'same_class_twice', 'other_array_listed_first',
+                            'gen:loop_without_sources',
+                            'gen:kernel_call:post_loop',
+                            'gen:hook_sets_attribute', 'arith', 'libm',
+                            'omp_schedule:default', 'omp_schedule:dynamic,4',
+                            'compiled_repeated',
+                            'two_dests_opposite_source_order']}
 SHARD_TIMEOUT = {'quick': 1700, 'thorough': 8 * 3600}
 KERNELS = ['CubicSpline', 'QuinticSpline', 'WendlandQuintic', 'Gaussian',
            'SuperGaussian', 'WendlandQuinticC4', 'WendlandQuinticC6',
@@ -52,6 +79,42 @@ BASE_PROPS = ('x', 'y', 'z', 'h', 'u', 'v', 'w', 'rho', 'm')
 
 
 # --------------------------------------------------------------- layouts
+# Layouts the recording dry run cannot see (the strided accesses sit behind a
+# data-dependent branch it does not reach): name -> ('prop', stride)
+LAYOUT_OVERRIDES = {
+    'FreeSurfaceBoundaryCondition': dict(coeff=('prop', 100),
+                                         col_idx=('prop', 100),
+                                         row_idx=('prop', 100)),
+}
+# Constructor arguments without a default whose generic guess (all equal)
+# makes the formula divide by zero in Python
+# further properties with a positive physical meaning (entropy function:
+# EntropyBasedDissipationTrigger takes log of a ratio of entropies)
+EXTRA_POSITIVE = ('s',)
+ARG_OVERRIDES = {
+    'EntropyBasedDissipationTrigger': dict(l0=0.5, l1=1.5),
+}
+
+
+def prepare_class(cls):
+    """Make the Python meaning of `cls` executable in this (serial) process:
+    math.h names, and `parallel_reduce_array`, which the manual defines as
+    doing nothing in serial (the generated code imports
+    `dummy_reduce_array` under that name; the module-level import of the
+    equation's file is the MPI one and needs mpi4py)."""
+    import sys
+    from vlib import eqcatalog as C
+    from pysph.base.reduce_array import dummy_reduce_array
+    C.inject_math(cls)
+    C.OVERRIDES.update((k, v) for k, v in ARG_OVERRIDES.items()
+                       if k not in C.OVERRIDES)
+    for klass in cls.__mro__:
+        mod = sys.modules.get(klass.__module__)
+        if mod is not None and klass.__module__.startswith('pysph.') and \
+                hasattr(mod, 'parallel_reduce_array'):
+            mod.parallel_reduce_array = dummy_reduce_array
+
+
 def resolve(key):
     """'module.Class' or 'module.Class#alt' -> (class, alt)"""
     from vlib import eqcatalog as C
@@ -72,12 +135,14 @@ def infer_layout(cls, dim, kernel_name, alt=False):
     from vlib import eqcatalog as C
     from vlib import jit
     from vlib.refeval import RefEval, RefUndefined
-    C.inject_math(cls)
+    prepare_class(cls)
     pyprops = []
     for attempt in range(8):
         lay, why = _infer_layout(cls, dim, kernel_name, pyprops, alt)
         m = why and re.search(r'has no property/constant (\w+)\.', why)
         if lay is not None or not m or m.group(1) in pyprops:
+            if lay is not None:
+                lay.update(LAYOUT_OVERRIDES.get(cls.__name__, {}))
             return lay, why
         # reduce / py_initialize read this through the ParticleArray itself
         pyprops.append(m.group(1))
@@ -206,7 +271,7 @@ def build_spec(name, n, nghost, dim, lay, data, off, hmul):
         cnt = n * size if kind == 'prop' else size
         if tp != 'double':
             vals = [0] * cnt
-        elif nm in C.POSITIVE:
+        elif nm in C.POSITIVE or nm in EXTRA_POSITIVE:
             vals = [table_value(pos, nm + name, j) for j in range(cnt)]
         else:
             vals = [table_value(gen, nm + name, j) for j in range(cnt)]
@@ -264,7 +329,14 @@ def prepare_bundle(keys, kernel_name, dim, first, stats):
         probe, _ = C.instantiate(cls, m.dn, [m.dn, m.sn], dim, alt=alt)
         m.has_pair = any(hasattr(probe, h) for h in ('loop', 'loop_all',
                                                      'initialize_pair'))
-        m.sources = [m.dn, m.sn] if m.has_pair else None
+        # the destination itself and a second array; every other member
+        # lists the second array first (source order = order of the loops)
+        # (decided by the class key, so that a replay of one class sees
+        # the same order)
+        odd = int(hashlib.md5(key.encode()).hexdigest()[:4], 16) % 2
+        m.sources = ([m.dn, m.sn] if not odd else [m.sn, m.dn]) \
+            if m.has_pair else None
+        m.src_first = bool(m.has_pair and odd)
         m.arith = C.uses_only_arithmetic(probe) and \
             kernel_name in C.KERNEL_ARITH
         m.strided = any(k == 'prop' and s > 1 for k, s in lay.values())
@@ -310,7 +382,7 @@ def member_specs(m, dim, data):
             build_spec(m.sn, data['ns'], 0, dim, m.lay, data, 1, 1.1)]
 
 
-def compile_bundle(members, kernel_name, dim, first):
+def compile_bundle(members, kernel_name, dim, first, cache=False):
     from pysph.base import kernels
     from pysph.sph.equation import Group
     from vlib import jit
@@ -321,7 +393,9 @@ def compile_bundle(members, kernel_name, dim, first):
         arrays += m.cmp_arrays
         groups.append(Group(equations=[m.cmp_eq]))
     K = getattr(kernels, kernel_name)(dim=dim)
-    ev = jit.compiled_evaluator(arrays, groups, K, dim)
+    # cache: the neighbour finder of the evaluator keeps per-destination
+    # neighbour lists (the default of SPHEvaluator's own factory)
+    ev = jit.compiled_evaluator(arrays, groups, K, dim, cache=bool(cache))
     return ev
 
 
@@ -375,6 +449,8 @@ def run_bundle_data(members, ev, dim, kernel_name, data):
         before = before_all[m.key]
         bitwise = m.arith
         labels.append('bitwise' if bitwise else 'tolerance')
+        if getattr(m, 'src_first', False):
+            labels.append('other_array_listed_first')
         if m.strided:
             labels.append('strided')
         if m.consts:
@@ -455,14 +531,48 @@ def class_keys():
     return out
 
 
+_TWIN = {}
+
+
+def twin_type_conflict(base):
+    """True when the plain and the #alt instance of class `base` carry a
+    public attribute of different Python type (int in one, float in the
+    other).  The generated C class of all instances of a class is typed from
+    one instance; before the repair in /repo (replay
+    replays/C02/twin_instances_int_float_attribute.json) the other
+    instance's value was converted (0.5 -> 0 for
+    sisph.GTVFAcceleration.hij_fac = `1 if internal else 0.5`).  Such pairs
+    share a bundle and are counted (twin:attribute_type_differs)."""
+    if base not in _TWIN:
+        from vlib import eqcatalog as C
+        cls = C.equation_classes()[base]
+        prepare_class(cls)
+        a, _ = C.instantiate(cls, 'd', ['d', 's'], 2)
+        b, _ = C.instantiate(cls, 'd', ['d', 's'], 2, alt=True)
+        conflict = False
+        if a is not None and b is not None:
+            ta = dict((k, type(v)) for k, v in vars(a).items()
+                      if not k.startswith('_'))
+            tb = dict((k, type(v)) for k, v in vars(b).items()
+                      if not k.startswith('_'))
+            conflict = ta != tb
+        _TWIN[base] = conflict
+    return _TWIN[base]
+
+
 def pack(keys, per):
     """Bundles of `per` classes with pairwise different class names (the
     generated wrappers are keyed by class name)."""
     bundles = []
     for k in keys:
         short = short_name(k)
+        base = k.partition('#')[0]
         for b in bundles:
-            if len(b) < per and short not in [short_name(x) for x in b]:
+            # two instances of one class (plain and #alt) may share an
+            # evaluator; two different classes of one name may not
+            if len(b) < per and all(
+                    short != short_name(x) or
+                    base == x.partition('#')[0] for x in b):
                 b.append(k)
                 break
         else:
@@ -487,7 +597,7 @@ def plan(ctx):
             dim = dims[(b + seedv) % len(dims)]
             shards.append(dict(name='shipped-%02d' % b, kind='shipped',
                                classes=grp, kernel=kern, dim=dim,
-                               ndata=ndata))
+                               ndata=ndata, cache=(b + seedv) % 2))
     else:
         per, ndata = 12, 30
         b = 0
@@ -498,7 +608,8 @@ def plan(ctx):
                 dim = dims[(b + seedv + rep) % len(dims)]
                 shards.append(dict(name='shipped-%03d' % b, kind='shipped',
                                    classes=grp, kernel=kern,
-                                   dim=dim, ndata=ndata))
+                                   dim=dim, ndata=ndata,
+                                   cache=(b + rep) % 2))
                 b += 1
     # a fixed bundle of classes with strided properties and constants, so
     # that those layouts are exercised whatever window the seed selects
@@ -521,7 +632,9 @@ def plan(ctx):
         'pysph.sph.basic_equations.SummationDensity',
         'pysph.sph.gas_dynamics.basic.MPMAccelerations#alt',
         'pysph.sph.wc.transport_velocity.MomentumEquationArtificialStress',
-        'pysph.sph.wc.kernel_correction.GradientCorrectionPreStep')]
+        'pysph.sph.wc.kernel_correction.GradientCorrectionPreStep',
+        'pysph.sph.isph.sisph.GTVFAcceleration',
+        'pysph.sph.isph.sisph.GTVFAcceleration#alt')]
     sg = (pack(sg, 10) or [[]])[0]
     shards.append(dict(name='shipped-core-sg', kind='shipped', classes=sg,
                        kernel='SuperGaussian', dim=2 + seedv % 2,
@@ -544,6 +657,11 @@ def run_shard(spec, ctx):
     kernel_name, dim = spec['kernel'], spec['dim']
     calls = [0]
     holder = {}
+    for k in spec['classes']:
+        base, _, tag = k.partition('#')
+        if tag == 'alt' and base in spec['classes'] and \
+                twin_type_conflict(base):
+            stats.label('twin:attribute_type_differs')
 
     def execute(data):
         calls[0] += 1
@@ -561,7 +679,7 @@ def run_shard(spec, ctx):
                     return Outcome([pf], ['shipped'], False)
                 try:
                     holder['ev'] = compile_bundle(members, kernel_name, dim,
-                                                  data)
+                                                  data, spec.get('cache'))
                 except SystemExit:
                     holder['ev'] = None
                     holder['cfail'] = Failure(
@@ -580,6 +698,9 @@ def run_shard(spec, ctx):
                          kernel=kernel_name, dim=dim, data=data))
         res = run_bundle_data(members, holder['ev'], dim, kernel_name, data)
         fails, labels, nt = [], set(), False
+        labels.add('nnps_cache_on' if spec.get('cache') else 'nnps_cache_off')
+        if len(set(m.cls for m in members)) < len(members):
+            labels.add('same_class_twice')
         for m, f, l, n in res:
             fails += f
             labels.update(l)
@@ -598,10 +719,10 @@ def run_shard(spec, ctx):
            shrink=True)
     for f in stats.failures:
         f['case'] = dict(bundle=[f['klass'].get('cls')], kernel=kernel_name,
-                         dim=dim, data=f['case'],
+                         dim=dim, data=f['case'], cache=spec.get('cache', 0),
                          classes=[k for k in spec['classes']
-                                  if k.endswith('.' + str(
-                                      f['klass'].get('cls')))])
+                                  if short_name(k) == str(
+                                      f['klass'].get('cls'))])
     if 'sample' in holder:
         stats.samples = [dict(
             bundle=[m.key for m in holder.get('members', [])][:4],
@@ -648,7 +769,7 @@ def run_case(case, component, ctx):
         return []
     try:
         ev = compile_bundle(members, case['kernel'], case['dim'],
-                            case['data'])
+                            case['data'], case.get('cache'))
     except SystemExit:
         return [Failure('shipped', 'compile_failed',
                         'does not compile').as_dict(case)]
